@@ -34,6 +34,7 @@ class Function:
 
 
 HEADER_RE = re.compile(r"^(fn|const|static(?: mut)?) (.*)$")
+ANON_CONST_RE = re.compile(r"^[A-Za-z_][\w:<>', ]*::\{constant#\d+\}: [\w:]+ = \{$")
 
 
 def split_top(s, sep=","):
@@ -209,6 +210,9 @@ def parse_mir(text, crate=""):
             ctfe_next = True
             i += 1
             continue
+        if ANON_CONST_RE.match(line):
+            # explicit enum discriminants are printed without the `const` keyword: `Enum::Variant::{constant#0}: u8 = {`
+            line = "const " + line
         if HEADER_RE.match(line) and line.rstrip().endswith("{"):
             start = i
             # body until a line that is exactly "}"
